@@ -26,6 +26,8 @@ def one(a):
     except SyntaxError as ex:
         return name, prop, 'does not parse', [], [str(ex)], []
     props_to_run = [prop] if os.environ.get('ALL_PROPS') != '1' else sorted(core.RULES)
+    if os.environ.get('PROPS'):
+        props_to_run = os.environ['PROPS'].split(',')       # only these properties, against every refactoring
     known = core.load_known()
     viol, unk, details = [], [], []
     for p in props_to_run:
@@ -54,7 +56,7 @@ def main():
             items.append((os.path.basename(d), os.path.basename(d).split('-')[0], os.path.join(d, 'patch.diff')))
     n = {'FALSE ALARM': 0, 'analysis-error': 0, 'silent': 0}
     rows = []
-    with cf.ProcessPoolExecutor(max_workers=12) as ex:
+    with cf.ProcessPoolExecutor(max_workers=int(os.environ.get('JOBS', '12'))) as ex:
         for name, prop, verdict, viol, unk, details in ex.map(one, items):
             n[verdict] = n.get(verdict, 0) + 1
             rows.append((name, prop, verdict, viol, unk))
@@ -65,7 +67,7 @@ def main():
                 for u in unk[:4]:
                     print('       UNKNOWN', u)
     print(n)
-    if not root:
+    if not root and not os.environ.get('PROPS'):
         with open(os.path.join(core.VERIF, 'benign', 'STATUS.md'), 'w') as f:
             f.write('# Behaviour-preserving refactorings vs. the static checks\n\n'
                     f'{len(rows)} refactorings (each: pinned suite passes, equivalence program reports identical behaviour). '
